@@ -790,6 +790,13 @@ func (p *PathConds) expandCall(call *ssa.Call) (pos, neg []conj, ok bool) {
 	if sum == nil {
 		return nil, nil, false
 	}
+	pos, ok1 := p.substSummary(call, sum.pos)
+	neg, ok2 := p.substSummary(call, sum.neg)
+	return pos, neg, ok1 && ok2
+}
+
+// substSummary rewrites a summary of call's callee into the caller's terms.
+func (p *PathConds) substSummary(call *ssa.Call, src []conj) (out []conj, ok bool) {
 	args := call.Call.Args
 	subst := func(l string) string {
 		return l[:1] + paramPathRe.ReplaceAllStringFunc(l[1:], func(m string) string {
@@ -809,27 +816,91 @@ func (p *PathConds) expandCall(call *ssa.Call) (pos, neg []conj, ok bool) {
 		})
 	}
 	ok = true
-	conv := func(cs []conj) []conj {
-		var out []conj
-		for _, c := range cs {
-			var n conj
-			good := true
-			for _, l := range c {
-				var g2 bool
-				n, g2 = conjAdd(n, normLit(subst(l)))
-				if !g2 {
-					good = false
-					break
-				}
-			}
-			if good {
-				out = append(out, n)
+	for _, c := range src {
+		var n conj
+		good := true
+		for _, l := range c {
+			var g2 bool
+			n, g2 = conjAdd(n, normLit(subst(l)))
+			if !g2 {
+				good = false
+				break
 			}
 		}
-		return out
+		if good {
+			out = append(out, n)
+		}
 	}
-	pos, neg = conv(sum.pos), conv(sum.neg)
-	return pos, neg, ok
+	return out, ok
+}
+
+var errSumCache = map[*ssa.Function]*boolSummary{}
+
+// errSummaryOf: for a small, loop-free, side-effect-free repo function whose only result is an
+// error: pos = the ways it returns nil, neg = the ways it returns a (freshly built) error.
+func (p *PathConds) errSummaryOf(g *ssa.Function) *boolSummary {
+	if s, ok := errSumCache[g]; ok {
+		return s
+	}
+	errSumCache[g] = nil
+	t := p.t
+	if !t.w.InRepo(g) || len(g.Blocks) == 0 || len(g.Blocks) > 16 {
+		return nil
+	}
+	res := g.Signature.Results()
+	if res.Len() != 1 || !isErrorType(res.At(0).Type()) || t.purity(g) < purReadOnly {
+		return nil
+	}
+	for _, b := range g.Blocks {
+		if isLoopHeader(b) {
+			return nil
+		}
+	}
+	tg := t.w.TermsOf(g, t.eff)
+	pg := NewPathConds(tg)
+	sum := &boolSummary{}
+	for _, b := range g.Blocks {
+		if len(b.Instrs) == 0 {
+			continue
+		}
+		r, ok := b.Instrs[len(b.Instrs)-1].(*ssa.Return)
+		if !ok {
+			continue
+		}
+		d := pg.At(b)
+		if d.unknown || len(r.Results) != 1 {
+			return nil
+		}
+		switch v := r.Results[0].(type) {
+		case *ssa.Const:
+			if v.Value != nil {
+				return nil
+			}
+			sum.pos = append(sum.pos, d.cs...)
+		case *ssa.MakeInterface:
+			sum.neg = append(sum.neg, d.cs...)
+		case *ssa.Call:
+			if !isErrorCtorCall(v) {
+				return nil
+			}
+			sum.neg = append(sum.neg, d.cs...)
+		default:
+			return nil
+		}
+	}
+	sum.pos, sum.neg = simplify(sum.pos), simplify(sum.neg)
+	for _, cs := range [][]conj{sum.pos, sum.neg} {
+		for _, c := range cs {
+			for _, l := range c {
+				bare := quotedRe.ReplaceAllString(l[1:], `""`)
+				if strings.Contains(bare, "@") || tagRe.MatchString(bare) || strings.Contains(bare, "phi(") || strings.Contains(bare, "mu(") {
+					return nil
+				}
+			}
+		}
+	}
+	errSumCache[g] = sum
+	return sum
 }
 
 // normLit re-normalises a literal after substitution ("!x", "a != b", "a <= b").
@@ -933,6 +1004,30 @@ func (p *PathConds) edgeDNF(from, to *ssa.BasicBlock) []conj {
 						return pos
 					}
 					return neg
+				}
+			}
+			// `check(...) == nil` / `!= nil` for a side-effect-free helper that returns an error
+			if bo, ok := v.(*ssa.BinOp); ok && (bo.Op == token.EQL || bo.Op == token.NEQ) {
+				var cv ssa.Value
+				if isNilConst(bo.Y) {
+					cv = bo.X
+				} else if isNilConst(bo.X) {
+					cv = bo.Y
+				}
+				if call, ok := cv.(*ssa.Call); ok && !call.Call.IsInvoke() && call.Call.StaticCallee() != nil {
+					if sum := p.errSummaryOf(call.Call.StaticCallee()); sum != nil {
+						isNil := want
+						if bo.Op == token.NEQ {
+							isNil = !want
+						}
+						src := sum.neg
+						if isNil {
+							src = sum.pos
+						}
+						if out, ok := p.substSummary(call, src); ok {
+							return out
+						}
+					}
 				}
 			}
 		}
